@@ -27,6 +27,7 @@ var yieldTargets = []struct {
 }{
 	{"internal/ledger/state_accessor.go", []string{"FlushDirtyData", "Commit"}},
 	{"internal/executor/handle.go", []string{"processExecuteEvent"}},
+	{"internal/executor/serial_executor.go", []string{"ApplyTransactions"}},
 }
 
 func lockCall(st ast.Stmt) (acquire, release, deferred bool) {
@@ -85,24 +86,37 @@ func addYields(scratch string, repl map[string]string) int {
 			if recv == "_" {
 				continue
 			}
-			held := false
-			for i, st := range fd.Body.List {
-				acq, rel, deferred := lockCall(st)
-				if rel && deferred {
-					continue // "defer x.Unlock()": the lock stays held to the end
-				}
-				if !held {
-					if _, isLabel := st.(*ast.LabeledStmt); !isLabel {
-						all = append(all, ins{fset.Position(st.Pos()).Offset, fmt.Sprintf("verifYield(%q, %d, %s); ", fd.Name.Name, i, recv)})
+			var walk func(list []ast.Stmt, base int, held bool, depth int)
+			walk = func(list []ast.Stmt, base int, held bool, depth int) {
+				for i, st := range list {
+					acq, rel, deferred := lockCall(st)
+					if rel && deferred {
+						continue // "defer x.Unlock()": the lock stays held to the end
+					}
+					if !held {
+						if _, isLabel := st.(*ast.LabeledStmt); !isLabel {
+							all = append(all, ins{fset.Position(st.Pos()).Offset, fmt.Sprintf("verifYield(%q, %d, %s); ", fd.Name.Name, base+i, recv)})
+						}
+						if depth == 0 {
+							// one level down: between the iterations' statements of a top-level loop (between two transactions
+							// of a block); statement j of the loop that is statement i is numbered 1000*(i+1)+j
+							switch l := st.(type) {
+							case *ast.ForStmt:
+								walk(l.Body.List, 1000*(base+i+1), held, 1)
+							case *ast.RangeStmt:
+								walk(l.Body.List, 1000*(base+i+1), held, 1)
+							}
+						}
+					}
+					if acq {
+						held = true
+					}
+					if rel {
+						held = false
 					}
 				}
-				if acq {
-					held = true
-				}
-				if rel {
-					held = false
-				}
 			}
+			walk(fd.Body.List, 0, false, 0)
 		}
 		if len(all) == 0 {
 			continue
